@@ -602,7 +602,7 @@ theorem WInv.step {t : Typ} (ht : TypWF t) (hn : Spec.namesOk t = true) {h : His
 def runSets (w : Wrapped) (h : Hist) : Res Wrapped :=
   h.foldl (fun acc p => acc.bind (fun w => w.set p.1 p.2)) (.ok w)
 
-theorem WInv.run {t : Typ} (ht : TypWF t) (hn : Spec.namesOk t = true) (h : Hist) (hok : HistOk t h) :
+theorem WInv.run {t : Typ} (ht : TypWF t) (hn : Spec.namesOk t = true) (h : Hist) (hok : SetHistOk t h) :
     ∀ (pre : Hist) (w : Wrapped), WInv t pre w →
       ∃ w', runSets w h = .ok w' ∧ WInv t (pre ++ h) w' := by
   induction h with
